@@ -24,7 +24,9 @@ CLAIMS = {
     'C11': ('proof', 'copy between managers on the model (DDProps/C11) tied by correspondence over order pairs', 'Lean 4 proof + differential correspondence'),
     'C13': ('proof', 'image/preimage on the model (DDProps/C13) tied by exhaustive one-pair correspondence; preimage finding F5 recorded', 'Lean 4 proof + differential correspondence'),
     'C14': ('proof', 'add_var/undeclare_vars on the model (DDProps/C14) tied by interleaving correspondence', 'Lean 4 proof + differential correspondence'),
+    'C16': ('proof', 'abstract DDDMP file model (header tables, node list, re-indexing, bottom-up rebuild, root translation) with C16_load_spec proved for every well-formed file and numbering; text files tied by correspondence (the harness writes text and abstract encodings from the same data)', 'Lean 4 proof + differential correspondence'),
     'C17': ('proof', 'total step function: errors keep the invariant (DDProps/C17) tied by malformed-call injection', 'Lean 4 proof + differential correspondence'),
+    'C19': ('proof', 'source-level only (the C extensions cannot be built here): translators over the four .pyx files regenerate Lean tables on every run; cApply_sound / cVocab / refTraces_balanced re-decided on them; partial by nature: relative to the line-structured reader and the hand-written C API semantics; nothing is executed', 'Lean 4 decide over tables regenerated from the .pyx sources'),
     'C18': ('proof', 'structural views on the model (DDProps/C18) tied by re-reading the exported graphs', 'Lean 4 proof + differential correspondence'),
 }
 
@@ -33,8 +35,6 @@ PENDING = {
     'C08': 'autoref handle model not built yet in this round',
     'C12': 'dump/load content model not built yet in this round',
     'C15': 'MDD model not built yet in this round',
-    'C16': 'DDDMP abstract-file model not built yet in this round',
-    'C19': 'C wrapper source tables not extracted yet in this round',
 }
 
 
